@@ -180,6 +180,14 @@ def install(post=None) -> dict:
     return rep
 
 
+def reset() -> None:
+    """Forget the edges seen so far (in-process harnesses run many trials in one interpreter; lock serial numbers stay unique)."""
+    with _meta:
+        EDGES.clear()
+        ACTIVE.clear()
+        del SELF[:]
+
+
 def report() -> dict:
     """Edges seen so far and unguarded inversions between different, overlapping threads."""
     with _meta:
